@@ -41,6 +41,7 @@ def _dispatcher_filter(repo, getter: str, default_name: str):
 
 def run(ctx: Ctx):
     ctx.attempt(eligibility, ctx)
+    ctx.attempt(rejections, ctx)
     ctx.attempt(c17.dispatcher_filter, ctx, True)
     ctx.attempt(c10.dispatcher, ctx)
     ctx.attempt(receiver_role, ctx)
@@ -84,6 +85,59 @@ def eligibility(ctx: Ctx):
             except AnalysisError:
                 ctx.violation("D1", "GD.eligible", "final eligibility test: remaining range > matching threshold", fn, p.end,
                               why=f"an accepting return `{flow.dump(val)[:120]}` is not the comparison of remaining range with the matching threshold", construct="_is_valid_for_dispatch:range-return")
+
+
+def rejections(ctx: Ctx):
+    """The other direction of eligibility ('the number of pairs equals the smaller of the two counts' counts EVERY eligible vehicle):
+    _is_valid_for_dispatch turns a vehicle away only for one of the stated reasons — activity not dispatchable, driver off shift,
+    not of the fleet being solved, no powertrain record, charging at a base with less than the base threshold of range — and the
+    last one exactly: at a base AND below the threshold (truth table)."""
+    fn = _dispatcher_filter(ctx.repo, "get_vehicles", "_is_valid_for_dispatch")
+    v = fn.params[0]
+    rng = f"environment.mechatronics.get({v}.mechatronics_id).range_remaining_km({v})"
+    bthr = "environment.config.dispatcher.base_charging_range_km_threshold"
+    n = 0
+    for p in flow.paths(fn.node):
+        if p.kind != "return" or not (isinstance(p.value, ast.Constant) and p.value.value is False):
+            continue
+        deciding = [c for c in p.conds if isinstance(c.pol, bool) and c.test is not None and flow._const_truth(c.test) is None]
+        if not deciding:
+            continue
+        last = deciding[-1]
+        d = flow.dump(gd._strip_bool(last.test))
+        n += 1
+        reason = None
+        if "valid_dispatch_states" in d:
+            reason = "activity"
+        elif d in (f"{v}.driver_state.available", f"not {v}.driver_state.available"):
+            reason = "driver"
+        elif "grant_access_to_membership" in d:
+            reason = "fleet"
+        elif d.replace("$isnone(", "").startswith(f"environment.mechatronics.get({v}.mechatronics_id)") and "range_remaining_km" not in d:
+            reason = "powertrain"
+        elif "ChargingBase" in d:
+            try:
+                rows = cmp.predicate_table(last.test, {rng: "r", bthr: "b"}, grid=range(0, 3))
+                atom = f"isinstance({v}.vehicle_state, ChargingBase)"
+                if not all(atom in f or not f for g, f, val in rows):
+                    bad = [("free atoms", [f for _, f, _ in rows][:1], None)]
+                else:
+                    # which side the threshold itself falls on is not stated by the property ('enough remaining range'): either is accepted
+                    bad1 = [(g, f, val) for g, f, val in rows if (val == last.pol) != (bool(f.get(atom, False)) and g["r"] < g["b"])]
+                    bad2 = [(g, f, val) for g, f, val in rows if (val == last.pol) != (bool(f.get(atom, False)) and g["r"] <= g["b"])]
+                    bad = bad1 if (bad1 and bad2) else []
+                ctx.check(not bad, "D1", "GD.eligible", "a vehicle charging at a base is turned away exactly when its range is below the base threshold (at a base AND below it)", fn, p.end,
+                          why_ok="truth table over (at base, range vs threshold)",
+                          why_bad=f"`{d[:140]}` differs from `at a base and range < base threshold`, e.g. {bad[:2]}: vehicles that are eligible are left out of the matching",
+                          construct="_is_valid_for_dispatch:base-guard")
+                continue
+            except (cmp.Unknown, AnalysisError) as e:
+                raise AnalysisError(f"_is_valid_for_dispatch: base-charging guard `{d[:100]}` not understood ({e})")
+        ctx.check(reason is not None, "D1", "GD.eligible", f"_is_valid_for_dispatch turns a vehicle away only for a stated reason ({reason or '?'})", fn, p.end,
+                  why_bad=f"a vehicle is rejected because `{('' if last.pol else 'not ') + d[:160]}`: that is none of the stated reasons, so an eligible vehicle is left out and the matching is "
+                          f"smaller (or costlier) than the best one",
+                  construct=f"_is_valid_for_dispatch:rejects:{d[:100]}")
+    ctx.require(n >= 4, f"_is_valid_for_dispatch: only {n} rejecting paths seen")
 
 
 def receiver_role(ctx: Ctx):
